@@ -1169,7 +1169,8 @@ std::string eval_macro_callback(
     // running inside the VM and thus cannot give way for the evaluate_expression method.
     // ToDo: Fix "edge case" where the user uses a running VM to preprocess a file that contains __EVAL to not break the SQF-VM execution.
     auto res = runtime.evaluate_expression(params[0], success, false);
-    return success ? res.data()->to_string_sqf() : "";
+    // The expression may legitimately yield nothing (an assignment, nil, a reported error)
+    return success && !res.empty() ? res.data()->to_string_sqf() : "";
 }
 static int __counter__ = 0;
 std::string counter_macro_callback(
